@@ -60,9 +60,13 @@ impl Table {
     }
 
     pub fn snapshot(&self, column_filter: Option<&[String]>) -> Vec<Arc<Partition>> {
+        #[cfg(feature = "verif")]
+        crate::verif::hooks::sync_point_at("snapshot:begin", &self.name);
         let frozen_buffer = self.frozen_buffer.lock().unwrap();
         let partitions = self.partitions.read().unwrap();
         let buffer = self.buffer.lock().unwrap();
+        #[cfg(feature = "verif")]
+        crate::verif::hooks::sync_point_at("snapshot:locked", &self.name);
         let mut partitions: Vec<_> = partitions.values().cloned().collect();
         let mut offset = partitions.iter().map(|p| p.len()).sum::<usize>();
         if frozen_buffer.len() > 0 {
@@ -98,6 +102,8 @@ impl Table {
                 .0,
             ));
         }
+        #[cfg(feature = "verif")]
+        crate::verif::hooks::sync_point_at("snapshot:copied", &self.name);
         partitions
     }
 
@@ -119,10 +125,18 @@ impl Table {
     }
 
     pub fn freeze_buffer(&self) {
+        #[cfg(feature = "verif")]
+        crate::verif::hooks::sync_point_at("freeze:begin", &self.name);
         let mut frozen_buffer = self.frozen_buffer.lock().unwrap();
+        #[cfg(feature = "verif")]
+        crate::verif::hooks::sync_point_at("freeze:frozen_locked", &self.name);
         let mut buffer = self.buffer.lock().unwrap();
+        #[cfg(feature = "verif")]
+        crate::verif::hooks::sync_point_at("freeze:locked", &self.name);
         assert!(frozen_buffer.len() == 0, "Frozen buffer is not empty");
         std::mem::swap(&mut *buffer, &mut *frozen_buffer);
+        #[cfg(feature = "verif")]
+        crate::verif::hooks::sync_point_at("freeze:swapped", &self.name);
     }
 
     pub fn restore_tables_from_disk(storage: &Storage, lru: &Lru) -> HashMap<String, Arc<Table>> {
@@ -179,6 +193,8 @@ impl Table {
 
     pub fn ingest_homogeneous(&self, columns: HashMap<String, InputColumn>) {
         let mut buffer = self.buffer.lock().unwrap();
+        #[cfg(feature = "verif")]
+        crate::verif::hooks::sync_point_at("ingest_homogeneous:locked", &self.name);
         let mut column_names = self.column_names.write().unwrap();
         let column_names = column_names.as_mut().unwrap_or_else(|| {
             panic!(
@@ -192,6 +208,8 @@ impl Table {
             }
         }
         buffer.push_typed_cols(columns);
+        #[cfg(feature = "verif")]
+        crate::verif::hooks::sync_point_at("ingest_homogeneous:pushed", &self.name);
     }
 
     pub fn ingest_heterogeneous(&self, columns: HashMap<String, Vec<RawVal>>) {
@@ -213,11 +231,17 @@ impl Table {
 
     /// Creates a new partition from current buffer and returns it.
     pub(crate) fn batch(&self) -> Option<Arc<Partition>> {
+        #[cfg(feature = "verif")]
+        crate::verif::hooks::sync_point_at("batch:begin", &self.name);
         let mut buffer = self.frozen_buffer.lock().unwrap();
+        #[cfg(feature = "verif")]
+        crate::verif::hooks::sync_point_at("batch:frozen_locked", &self.name);
         if buffer.len() == 0 {
             return None;
         }
         let buffer = std::mem::take(buffer.deref_mut());
+        #[cfg(feature = "verif")]
+        crate::verif::hooks::sync_point_at("batch:taken", &self.name);
         let part_id = self.next_partition_id();
         let partition_offset = self
             .next_partition_offset
@@ -229,12 +253,20 @@ impl Table {
             self.lru.clone(),
             partition_offset,
         );
+        #[cfg(feature = "verif")]
+        crate::verif::hooks::sync_point_at("batch:built", &self.name);
         let arc_partition;
         {
             let mut partitions = self.partitions.write().unwrap();
+            #[cfg(feature = "verif")]
+            crate::verif::hooks::sync_point_at("batch:write_locked", &self.name);
             arc_partition = Arc::new(new_partition);
             partitions.insert(part_id, arc_partition.clone());
+            #[cfg(feature = "verif")]
+            crate::verif::hooks::sync_point_at("batch:inserted", &self.name);
         }
+        #[cfg(feature = "verif")]
+        crate::verif::hooks::sync_point_at("batch:registered", &self.name);
         for (id, column) in keys {
             self.lru.put(ColumnLocator::new(self.name(), id, &column));
         }
@@ -285,13 +317,21 @@ impl Table {
     ) {
         let (partition, keys) =
             Partition::new(self.name(), id, columns, self.lru.clone(), false, offset);
+        #[cfg(feature = "verif")]
+        crate::verif::hooks::sync_point_at("table_compact:built", &self.name);
         {
             let mut partitions = self.partitions.write().unwrap();
+            #[cfg(feature = "verif")]
+            crate::verif::hooks::sync_point_at("table_compact:write_locked", &self.name);
             for old_id in old_partitions {
                 partitions.remove(old_id);
             }
             partitions.insert(id, Arc::new(partition));
+            #[cfg(feature = "verif")]
+            crate::verif::hooks::sync_point_at("table_compact:swapped", &self.name);
         }
+        #[cfg(feature = "verif")]
+        crate::verif::hooks::sync_point_at("table_compact:unlocked", &self.name);
         for (id, column) in keys {
             self.lru.put(ColumnLocator::new(self.name(), id, &column));
         }
